@@ -19,6 +19,10 @@ pub enum Sub {
     Whitespace { seqs: Vec<(Vec<String>, Vec<bool>, Vec<bool>, Vec<bool>)>, mode: u8 },
     /// anything at all: totality and range only
     Wild { triples: Vec<(String, String, String)>, mode: u8 },
+    /// the prediction repairs every misspelled word but breaks a correct one: recall 1, precision < 1
+    /// (target = words + unique last word; input = words with some replaced + the same last word;
+    /// prediction = words + a garbage last word)
+    BreakCorrect { words: Vec<String>, replaced: Vec<(u16, String)> },
     /// accuracy / binary F1 / mean edit distances
     Simple { a: Vec<String>, b: Vec<String>, pa: Vec<bool>, pb: Vec<bool> },
 }
@@ -37,6 +41,8 @@ pub struct C13;
 const WORDS: &[&str] = &[
     "a", "b", "ab", "A", "the", "cat", "eats", "fish", "ba", "x", "´x", "x´", "ﬁsh", "é", "e\u{301}", "中", "a.", "¨",
 ];
+
+const PLAIN_WORDS: &[&str] = &["a", "b", "ab", "the", "cat", "eats", "fish", "ba", "x", "A"];
 
 fn sentence(max: usize) -> BoxedStrategy<Vec<String>> {
     proptest::collection::vec(select(WORDS).prop_map(str::to_string), 0..=max).boxed()
@@ -210,7 +216,7 @@ impl Prop for C13 {
     type Case = Case;
     const ID: &'static str = "C13";
     const RULE: &'static str = "four generated families: (a) spelling triples built from a target word sequence with word-level corruptions (delete/add/merge/split/replace/swap words, empty prediction, NFKC-space characters, unclean separators), prediction = target / input / further corruption; (b) whitespace triples = three independent space placements of one character sequence (all valid variants), all three modes; (c) arbitrary Unicode triples (totality + range only); (d) label/prediction vectors and string lists for accuracy, binary F1, mean (normalised) edit distance; x beta in {0.5,1,2} x sequence_averaged x use_graphemes. Oracles: range, calibration laws via reference LCS, reference whitespace-operation sets, aggregation laws, defining formulas with the C12 reference distance. Non-trivial: a triple with prediction != input != target in which one text is empty or the word counts differ (a), >= 2 sequences with both an insertion and a deletion (b). Distinct = distinct serialised case.";
-    const ESSENTIAL: &'static [&'static str] = &["spelling", "whitespace", "wild", "simple", "empty_pred", "empty_input", "empty_list", "nfkc_space", "pred_eq_target", "pred_eq_input", "merged_or_split"];
+    const ESSENTIAL: &'static [&'static str] = &["spelling", "whitespace", "wild", "simple", "empty_pred", "empty_input", "empty_list", "nfkc_space", "pred_eq_target", "pred_eq_input", "merged_or_split", "break_correct"];
 
     fn budget(tier: Tier) -> Budget {
         match tier {
@@ -225,6 +231,9 @@ impl Prop for C13 {
             5 => proptest::collection::vec(triple(), 0..=4).prop_map(|triples| Sub::Spelling { triples }),
             3 => (proptest::collection::vec(ws_seq(), 0..=4), 0u8..3).prop_map(|(seqs, mode)| Sub::Whitespace { seqs, mode }),
             2 => (proptest::collection::vec(wild_t, 0..=3), 0u8..3).prop_map(|(triples, mode)| Sub::Wild { triples, mode }),
+            2 => (proptest::collection::vec(select(PLAIN_WORDS).prop_map(str::to_string), 1..=6),
+                  proptest::collection::vec((any::<u16>(), select(PLAIN_WORDS).prop_map(str::to_string)), 1..=3))
+                .prop_map(|(words, replaced)| Sub::BreakCorrect { words, replaced }),
             2 => (0usize..=4).prop_flat_map(|n| (
                     proptest::collection::vec(prop_oneof![gen::text(4), select(WORDS).prop_map(str::to_string)], n),
                     proptest::collection::vec(prop_oneof![gen::text(4), select(WORDS).prop_map(str::to_string)], n),
@@ -429,6 +438,34 @@ impl Prop for C13 {
                 for (a, b) in [(&ins, &tgs), (&prs, &tgs)] {
                     for r in [metrics::mean_edit_distance(a, b, g), metrics::mean_normalized_edit_distance(a, b, g)] {
                         ensure!(out, matches!(r, Ok(v) if v.is_finite() && v >= 0.0), "mean edit distance not finite: {r:?}");
+                    }
+                }
+            }
+            Sub::BreakCorrect { words, replaced } => {
+                out.label("break_correct");
+                let mut input_words = words.clone();
+                for (pos, w) in replaced {
+                    let i = idx16(*pos, input_words.len());
+                    input_words[i] = w.clone();
+                }
+                let misspelled = words.len() - model::lcs_len(&input_words, words);
+                let input = format!("{} qq", input_words.join(" "));
+                let target = format!("{} qq", words.join(" "));
+                let pred = format!("{} zzz", words.join(" "));
+                out.nontrivial = misspelled >= 1 && words.len() >= 2;
+                for avg in [false, true] {
+                    match metrics::spelling_correction_f1(&[input.as_str()], &[pred.as_str()], &[target.as_str()], beta, avg, g) {
+                        Ok(((f, p, r), _)) => {
+                            ensure!(out, in_unit(f) && in_unit(p) && in_unit(r), "spelling F1 out of range ({f},{p},{r})");
+                            if misspelled >= 1 {
+                                ensure!(out, close(r, 1.0) && p > 0.0 && p < 1.0 - 1e-9,
+                                    "prediction {pred:?} restores all {misspelled} misspelled word(s) of input {input:?} (target {target:?}) but breaks the correct last word: expected recall 1 and 0 < precision < 1, got precision {p}, recall {r}");
+                            }
+                        }
+                        Err(e) => {
+                            out.fail(format!("spelling_correction_f1 failed: {e}"));
+                            return out;
+                        }
                     }
                 }
             }
